@@ -952,6 +952,18 @@ coap_oscore_decrypt_pdu(coap_session_t *session,
                                0);
       goto error_no_ack;
     }
+    if (cose->key_id.s == NULL) {
+      /* RFC8613 5.1: the kid is mandatory in a request (an empty kid is present) */
+      coap_log_warn("OSCORE: OSCORE Option has no kid.\n");
+      build_and_send_error_pdu(session,
+                               pdu,
+                               COAP_RESPONSE_CODE(402),
+                               "Failed to decode COSE",
+                               NULL,
+                               NULL,
+                               0);
+      goto error_no_ack;
+    }
     osc_ctx = oscore_find_context(session->context,
                                   cose->key_id,
                                   &cose->kid_context,
